@@ -2,6 +2,7 @@
 Proof instance of the scalar interface: ℝ and ℂ with Mathlib's operations.
 -/
 import Mathlib.Analysis.SpecialFunctions.Integrals.Basic
+import Mathlib.Analysis.SpecialFunctions.Trigonometric.Basic
 import FFVerif.Core.Scalars
 
 namespace FFVerif
@@ -12,6 +13,10 @@ noncomputable instance instRealOpsReal : RealOps ℝ where
   sqrt := Real.sqrt
   lt a b := decide (a < b)
   le a b := decide (a ≤ b)
+  sin := Real.sin
+  cos := Real.cos
+  tan := Real.tan
+  pi := Real.pi
 
 noncomputable instance instCplxOpsComplex : CplxOps ℝ ℂ where
   ofReal := Complex.ofReal
@@ -25,6 +30,10 @@ noncomputable instance instCplxOpsComplex : CplxOps ℝ ℂ where
 @[simp] theorem ropsSqrt (x : ℝ) : RealOps.sqrt x = Real.sqrt x := rfl
 @[simp] theorem ropsLt (a b : ℝ) : RealOps.lt a b = decide (a < b) := rfl
 @[simp] theorem ropsLe (a b : ℝ) : RealOps.le a b = decide (a ≤ b) := rfl
+@[simp] theorem ropsSin (x : ℝ) : RealOps.sin x = Real.sin x := rfl
+@[simp] theorem ropsCos (x : ℝ) : RealOps.cos x = Real.cos x := rfl
+@[simp] theorem ropsTan (x : ℝ) : RealOps.tan x = Real.tan x := rfl
+@[simp] theorem ropsPi : (RealOps.pi : ℝ) = Real.pi := rfl
 @[simp] theorem copsOfReal (x : ℝ) : (CplxOps.ofReal x : ℂ) = (x : ℂ) := rfl
 @[simp] theorem copsConj (z : ℂ) : CplxOps.conj z = starRingEnd ℂ z := rfl
 @[simp] theorem copsRe (z : ℂ) : CplxOps.re z = z.re := rfl
